@@ -32,7 +32,7 @@ def jobs(tier, seed):
     # the real Argon2 adapter: the stretched value is taken from the argon2 crate called directly by the harness
     # (salt = 16 zero bytes, tag length = Nh, as RFC 9807 prescribes) - opaque-ke's own Ksf impl is not involved
     for su in okv.ARGON_SUITES:
-        out.append({"suite": su, "shard": 0, "n": 3 if tier == "quick" else 12, "seed": seed, "cost": 300, "big": False})
+        out.append({"suite": su, "shard": 0, "n": 6 if tier == "quick" else 18, "seed": seed, "cost": 300, "big": False})
     return out
 
 
@@ -210,7 +210,9 @@ def run_job(job):
             s.cmd("ksf_new", id="kdef", param="default")
             s.cmd("ksf_new", id="kcheap", param={"m": 64, "t": 1, "p": 1})
             s.cmd("ksf_new", id="kcheap2", param={"m": 96, "t": 2, "p": 2})
-            modes = [None, "kcheap", "kdef", "kcheap2"]
+            s.cmd("ksf_new", id="kalgi", param={"m": 64, "t": 1, "p": 1, "alg": "i", "ver": 16})
+            s.cmd("ksf_new", id="ksecret", param={"m": 64, "t": 1, "p": 2, "alg": "d", "secret": "0102030405060708"})
+            modes = [None, "kcheap", "kdef", "kcheap2", "kalgi", "ksecret"]
         elif not su.endswith(":id"):
             s.cmd("ksf_new", id="k1", param=1)
             s.cmd("ksf_new", id="k0", param=0)
